@@ -211,6 +211,11 @@ def run(tier, seed, t0):
             cases.append({"kind": "block", "multiset": x * n, "perms": False})
             y = T.AA[(T.AA.index(x) + 7) % 20]
             cases.append({"kind": "block", "multiset": x * (n - 3) + y * 3, "perms": False})
+    # long sequences using all 20 residues (accumulators, division and dtype effects that need many terms), and one heavy outlier
+    for n in ((1000, 2500) if tier == "quick" else (1000, 2500, 5000, 12000)):
+        cases.append({"kind": "block", "multiset": (T.AA * (n // 20 + 1))[:n], "perms": False})
+        cases.append({"kind": "block", "multiset": ("WKRDEP" * (n // 6 + 1))[:n - 1] + "G", "perms": False})
+        cases.append({"kind": "block", "multiset": "G" * (n - 1) + "W", "perms": False})
     # after-context: homopolymers X^6, all ordered pairs as X^3 Y^4, STY-rich and long ones; 16 contexts each
     for x in T.AA:
         cases.append({"kind": "context", "multiset": x * 6})
@@ -227,7 +232,7 @@ def run(tier, seed, t0):
     return core.finish(
         PROP, tier, seed, acc, t0,
         rule="every multiset of 1..%d residues over the 20 amino acids with ALL its distinct permutations (= every word of "
-             "that length), plus all homopolymers X^a (a<=12) and two-residue blocks X^a Y^b (4<=a+b<=12) and long ones (130..1000 residues); per sequence 18 real "
+             "that length), plus all homopolymers X^a (a<=12) and two-residue blocks X^a Y^b (4<=a+b<=12) and long ones (130..1000 residues; 1000-2500 (thorough 12000) residues over all 20 residues); per sequence 18 real "
              "getter calls (+ 13 calls with other spellings of the PPII scale name: capitalised, upper and mixed case, positional and keyword, default) (counts, fractions, FCR, NCPR, mean net charge, expanding, disorder-promoting, 20 aa fractions, "
              "KD 0-9 / Uversky / Wimley-White hydropathy, 3 PPII scales, molecular weight) compared with exact sums over pinned "
              "published tables, 5 identities, and equality across permutations; after-context pass: on one live object per X^6, X^3Y^4 (all 380 ordered pairs) and 5 longer words, 16 other API calls (kappa, Omega, kappa_X incl. groups absent from the sequence, pI, pH getters, phosphosites, linear profiles, complexity, palette) each followed by 14 composition getters that must still equal the per-residue sums; non-trivial = multisets with >=2 distinct "
